@@ -82,6 +82,8 @@ def gen_world(rng, flavour):
     w = {'flavour': flavour, 't0': rng.choice(T0S),
          'fs_seed': '%016x' % rng.getrandbits(64)}
     w['roles'] = list(ROLE_POOL[:rng.choice((3, 3, 4))])
+    if rng.random() < 0.2:
+        w['roles'] = w['roles'][:3] + ['flag:f1']
     nreg = rng.randint(1, 4) if flavour != 'c09' else rng.randint(0, 4)
     dep_p = {'c09': 0.0, 'c10': 0.4, 'c11': 0.85, 'c12': 0.6,
              'c20': 0.4}[flavour]
@@ -117,7 +119,7 @@ def gen_world(rng, flavour):
                 ngroups += 1
                 if old != name:
                     groups[old] = d['dep']
-        elif rng.random() < 0.25:
+        if rng.random() < (0.25 if not d['dep'] else 0.15):
             d['scope'] = rng.choice((['system'], ['project'],
                                      ['system', 'project'], ['domain']))
         if not d['dep'] and rng.random() < 0.1:
@@ -156,6 +158,12 @@ def gen_layout(rng, w, flavour):
         c['dirs_via'] = 'default'       # the option's own default
     c['enforce_new_defaults'] = rng.random() < 0.5
     c['enforce_scope'] = rng.random() < 0.8
+    # swarm knobs: library DEBUG logging on (other code paths in enforce
+    # and load), credentials handed over as an oslo.context RequestContext,
+    # registered names decided through authorize()
+    c['debug_logging'] = rng.random() < 0.25
+    c['creds_as_context'] = rng.random() < 0.25
+    c['use_authorize'] = rng.random() < 0.25
     c['via'] = rng.choice(('config_dir', 'config_file'))
     if flavour == 'c09':
         pf = {'how': rng.choice(('untouched', 'set_defaults', 'config_file',
@@ -491,11 +499,17 @@ class DiskSim:
             self.fs = simfs.RealFS(t0=world['t0'])
         simfs.use(self.fs)
         self.root = self.fs.root + ('/' + sub if sub else '')
+        set_debug_logging(bool(world['conf'].get('debug_logging')))
         self.content = {}
         self.dirs = set()
         self.model = Model(world)
         self.probes = probes_for(world)
         self.counters = {}
+        for k in ('debug_logging', 'creds_as_context', 'use_authorize'):
+            if world['conf'].get(k):
+                self.counters['knob:' + k] = 1
+        if 'flag:f1' in world['roles']:
+            self.counters['knob:custom_check_class'] = 1
         for rel in world['mkdirs']:
             self.fs.mkdir(self.abs(rel))
             self.dirs.add(rel)
@@ -537,6 +551,7 @@ class DiskSim:
             if d.startswith('@ROOT/') else d
 
     def close(self):
+        set_debug_logging(False)
         if self.own_fs:
             self.fs.close()
             simfs.use(None)
@@ -632,11 +647,21 @@ class DiskSim:
     # ---- observation
     def decide(self, e, probe):
         name, roles, system = probe
-        creds = {'roles': list(roles)}
-        if system:
-            creds['system'] = 'all'
+        c = self.w['conf']
+        if c.get('creds_as_context'):
+            from oslo_context import context
+            creds = context.RequestContext(
+                roles=list(roles), system_scope='all' if system else None,
+                project_id=None if system else 'p-1', overwrite=False)
+        else:
+            creds = {'roles': list(roles)}
+            if system:
+                creds['system'] = 'all'
+        fn = e.enforce
+        if c.get('use_authorize') and name in self.model.reg:
+            fn = e.authorize
         try:
-            r = bool(e.enforce(name, {}, creds))
+            r = bool(fn(name, {}, creds))
         except Exception as ex:       # noqa - the outcome is what we record
             r = 'EXC:' + type(ex).__name__
         return r
@@ -657,6 +682,23 @@ class DiskSim:
     def model_main(self):
         return self.model.selected_main(
             lambda n: ('etc/' + n) in self.content)
+
+
+def set_debug_logging(on):
+    """Library DEBUG logging on/off for the current run; records go to a
+    NullHandler (nothing is printed, no handler lock is ever taken)."""
+    import logging
+    lg = logging.getLogger('oslo_policy')
+    if on:
+        logging.disable(logging.NOTSET)
+        lg.setLevel(logging.DEBUG)
+        lg.propagate = False
+        if not any(isinstance(h, logging.NullHandler) for h in lg.handlers):
+            lg.addHandler(logging.NullHandler())
+    else:
+        logging.disable(logging.CRITICAL)
+        lg.setLevel(logging.NOTSET)
+        lg.propagate = True
 
 
 _PRISTINE = []
